@@ -1,11 +1,11 @@
 (* C08 - A constraint that passes locally after a local edit passes globally; and if localization
    yields nothing the edit does not change the score ([local_pass_law]).
    Proved for the modelled built-in classes below, AvoidHairpins and UniquifyAllKmers (in its global
-   form, as the solver localizes it; model of the code after fix F19) included; the pure objective
-   HarmonizeRCA is covered by the differential run only. *)
+   form, as the solver localizes it; model of the code after fix F19) and the pure objective HarmonizeRCA
+   included: all 16 modelled classes. *)
 From Coq Require Import ZArith QArith Bool List Lia Ascii String.
 From DC Require Import Model.Base Model.Loc Model.Bio Model.Pattern Model.MSpace Model.Specs
-                       Proofs.SpecsDefs Proofs.SpecsLocalA Proofs.SpecsLocalB Proofs.SpecsLocalC Proofs.Hairpins Proofs.Uniquify.
+                       Proofs.SpecsDefs Proofs.SpecsLocalA Proofs.SpecsLocalB Proofs.SpecsLocalC Proofs.Hairpins Proofs.Uniquify Proofs.HarmonizePass.
 Import ListNotations.
 Open Scope Z_scope.
 Open Scope string_scope.
@@ -17,7 +17,7 @@ Definition c08_side (sp : spec) : Prop :=
   | _ => True
   end.
 Definition c08_class (sp : spec) : bool :=
-  match sp with SUniquify _ _ _ _ (Some _) | SHarmonizeRCA _ _ _ _ _ => false | _ => true end.
+  match sp with SUniquify _ _ _ _ (Some _) => false | _ => true end.
 
 Theorem C08_local_pass_implies_global_pass : forall sp w s s',
   c08_class sp = true -> wf_spec sp (zlen s) -> c08_side sp ->
@@ -37,6 +37,7 @@ Proof.
   - apply enforce_choice_laws.
   - apply rare_codons_laws; assumption.
   - apply maximize_cai_laws; assumption.
+  - apply harmonize_pass; assumption.
   - match goal with d : option kdata |- _ => destruct d; [discriminate|] end. apply uniquify_pass; assumption.
   - apply hairpins_pass; assumption.
   - apply terminal_gc_laws; assumption.
